@@ -179,6 +179,21 @@ Definition transfer (U : univ) (c : cfg) (T : repo) (M : list revid) : outcome *
          else (FOk, List.length M, insert U c T M)
   end.
 
+(* With a smart-server source the decisions "is there anything to fetch" / "are the formats
+   compatible" are taken on the key set the CLIENT computed (K), while the server sends what the
+   replayed recipe yields (M, a subset of K): K non-empty and M empty transfers nothing. *)
+Definition client_keys (U : univ) (fg : bool) (vis : list revid) (r : revid) : list revid :=
+  if fg then missing_full U vis r else missing_walk U vis r.
+Definition transfer2 (U : univ) (c : cfg) (T : repo) (K M : list revid) : outcome * nat * repo :=
+  match K with
+  | [] => (FOk, 0, T)
+  | _ => if incompat c then (FIncompatible, 0, T)
+         else match M with
+              | [] => (FOk, 0, T)
+              | _ => (FOk, List.length M, insert U c T M)
+              end
+  end.
+
 (* Repository.fetch(source, revision_id=r, find_ghosts=fg) / Branch.pull / Branch.push
    (the branch entry points always use find_ghosts=False); ControlDir.sprout into a new
    repository is the same with an empty target.  Returns the outcome, the number of revisions
@@ -186,7 +201,7 @@ Definition transfer (U : univ) (c : cfg) (T : repo) (M : list revid) : outcome *
 Definition fetch (U : univ) (c : cfg) (F T : repo) (fg : bool) (r : revid) : outcome * nat * repo :=
   let vis := vis_of F T in
   if negb (srcp U r) && (fg || negb (memb r vis)) then (FNoSuchRevision, 0, T)
-  else transfer U c T (missing U c fg vis r).
+  else transfer2 U c T (client_keys U fg vis r) (missing U c fg vis r).
 
 (* Repository.fetch(source) without a revision (EverythingNotInOther: all_revision_ids of the
    source minus those the target sees) *)
